@@ -379,7 +379,8 @@ func (ft *fnTrans) findLoops() {
 	}
 	for k := range ft.fc.Loops {
 		if k >= len(hs) {
-			panic(specErr{fmt.Sprintf("contract names loop %d but the function has %d loops", k, len(hs))})
+			// invariants are auxiliary: a loop that no longer exists needs none. The postconditions decide.
+			ft.vc.assumed[fmt.Sprintf("note: contract of %s names loop %d but the function now has %d loops (clauses ignored)", ft.vc.funcName, k, len(hs))] = true
 		}
 	}
 }
